@@ -1538,6 +1538,8 @@ M("C06-connack-walk-break", ["C06", "C14", "C10", "C19"], [("src/mqtt_client/ses
 M("C14-limit-exact-size-refused-runtime", ["C14"], [("src/mqtt_client/session/state.rs", ".is_some_and(|max| len > max as usize)", ".is_some_and(|max| len >= max as usize)")], ["C14/pred/verdict/require_packet_size@RuntimeState"])
 M("C14-limit-exact-size-refused-outbound", ["C14"], [("src/mqtt_client/outbound.rs", "if maximum_packet_size.is_some_and(|max| len > max as usize) {", "if maximum_packet_size.is_some_and(|max| len >= max as usize) {")], ["C14/pred/verdict/require_packet_size"])
 M("C06-gate-quota-greater-than-one", ["C06"], [("src/mqtt_client/session/mod.rs", "self.runtime.send_quota != 0 && self.data.outbound.can_retain()", "self.runtime.send_quota > 1 && self.data.outbound.can_retain()")], ["C06/gate/reads-quota"])
+M("C02-puback-early-return-on-failure", ["C02"], [("src/mqtt_client/session/inbound.rs", "                if !self.outbound.ack_packet(ack.packet_id) {\n                    debug!(\"Ignoring stale PUBACK", "                ack.reason.code().as_result()?;\n                if !self.outbound.ack_packet(ack.packet_id) {\n                    debug!(\"Ignoring stale PUBACK")], ["C02/final/PubAck/reaches-removal"])
+M("C03-pubcomp-early-return-on-failure", ["C03"], [("src/mqtt_client/session/inbound.rs", "                if !self.outbound.ack_release(comp.packet_id) {", "                comp.reason.code().as_result()?;\n                if !self.outbound.ack_release(comp.packet_id) {")], ["C03/comp/pubcomp-reaches-removal"])
 M("C09-push-off-by-one", ["C09", "C12"], [("src/ser/mod.rs", "if self.buf.len().saturating_sub(self.index) < 1 {", "if self.buf.len().saturating_sub(self.index) <= 1 {")], ["C09/fit/exact/push", "C12/fit/exact/push"])
 M("C09-commit-off-by-one", ["C09"], [("src/ser/mod.rs", "if self.buf.len().saturating_sub(self.index) < len {", "if self.buf.len().saturating_sub(self.index) <= len {")], ["C09/fit/exact/commit"])
 M("C09-push-bytes-bound-ignores-index", ["C09"], [("src/ser/mod.rs", "if self.buf.len().saturating_sub(self.index) < data.len() {", "if self.buf.len() < data.len() {")], ["C09/fit/exact/push_bytes"])
